@@ -198,8 +198,15 @@ fn places_of(t: &Seg, id: u8) -> Vec<u32> {
 /// C03 / C16, and an implementation may override the latter two.
 fn full_query(t: &mut Seg, c: u32, d: u32, tq: u8) -> Vec<SV> {
     let mut out = vec![];
-    let it = t.iter_by_range(SegRange { min: c as i32, max: d as i32 }, tq);
-    match (c + 2 * d + tq as u32) % 3 {
+    let mut it = t.iter_by_range(SegRange { min: c as i32, max: d as i32 }, tq);
+    let _ = it.size_hint();
+    match (c + 2 * d + tq as u32) % 4 {
+        3 => {
+            if let Some(v) = it.next() {
+                out.push(v);
+            }
+            it.for_each(|v| out.push(v));
+        }
         0 => {
             for v in it {
                 out.push(v);
